@@ -21,6 +21,7 @@ impl<'de, R: Reader<'de>> Parser<R> {
                 && final(vis).trace() == old(vis).trace().push(Ev::Str(decoded(old(self).read.data(), old(self).read.idx() as int, final(self).read.idx() - 1))),
             str_end(old(self).read.data(), old(self).read.idx() as int).is_none() ==> res.is_err(),
             final(self).read.idx() >= old(self).read.idx(),
+            res.is_err() ==> err_ok(res->Err_0, old(self).read.data()),
     { unimplemented!() }
 
 //@extract file=src/parser.rs impl="Parser<R>" fn=parse_number_inplace
@@ -39,6 +40,8 @@ impl<'de, R: Reader<'de>> Parser<R> {
                 &&& (number_end_l(s, p).is_none() ==> res.is_err())
             }),
             final(self).read.idx() >= old(self).read.idx(),
+            // every error is made by Parser::error: positioned inside the input (C20)
+            res.is_err() ==> err_ok(res->Err_0, old(self).read.data()),
 //@before /let start =/
             proof { lemma_lenient_extends_grammar(self.read.data(), if at(self.read.data(), self.read.idx() - 1, 0x2d) { self.read.idx() as int } else { self.read.idx() - 1 }); }
 //@end
@@ -53,6 +56,8 @@ impl<'de, R: Reader<'de>> Parser<R> {
             // the visitor saw exactly the reference event list of the value, in order
             res.is_ok() ==> final(visitor).trace() == old(visitor).trace() + value_events(old(self).read.data(), old(self).read.idx() as int, old(self).cfg.use_rawnumber),
             final(self).read.idx() >= old(self).read.idx(),
+            // every error is made by Parser::error: positioned inside the input (C20)
+            res.is_err() ==> err_ok(res->Err_0, old(self).read.data()),
         decreases old(self).read.data().len() - old(self).read.idx(), 0nat
 //@before /match self\.skip_space\(\) \{/
         let ghost s = self.read.data();
@@ -80,6 +85,8 @@ impl<'de, R: Reader<'de>> Parser<R> {
             res.is_ok() ==> final(vis).trace() == old(vis).trace() + seq![Ev::ArrStart]
                 + arr_rest_events(old(self).read.data(), old(self).read.idx() as int, old(self).cfg.use_rawnumber),
             final(self).read.idx() >= old(self).read.idx(),
+            // every error is made by Parser::error: positioned inside the input (C20)
+            res.is_err() ==> err_ok(res->Err_0, old(self).read.data()),
         decreases old(self).read.data().len() - old(self).read.idx(), 2nat
 //@before /check_visit!\(self, vis\.visit_array_start/
         let ghost s = self.read.data();
@@ -152,6 +159,8 @@ impl<'de, R: Reader<'de>> Parser<R> {
             res.is_ok() ==> final(vis).trace() == old(vis).trace() + seq![Ev::ObjStart]
                 + obj_rest_events(old(self).read.data(), old(self).read.idx() as int, old(self).cfg.use_rawnumber),
             final(self).read.idx() >= old(self).read.idx(),
+            // every error is made by Parser::error: positioned inside the input (C20)
+            res.is_err() ==> err_ok(res->Err_0, old(self).read.data()),
         decreases old(self).read.data().len() - old(self).read.idx(), 2nat
 //@before /let mut count/
         let ghost s = self.read.data();
@@ -206,5 +215,7 @@ impl<'de, R: Reader<'de>> Parser<R> {
             res.is_ok() ==> value_end_l(old(self).read.data(), old(self).read.idx() as int) == Some(final(self).read.idx() as int),
             value_end_l(old(self).read.data(), old(self).read.idx() as int).is_none() ==> res.is_err(),
             res.is_ok() ==> final(vis).trace() == old(vis).trace() + value_events(old(self).read.data(), old(self).read.idx() as int, old(self).cfg.use_rawnumber),
+            // every error is made by Parser::error: positioned inside the input (C20)
+            res.is_err() ==> err_ok(res->Err_0, old(self).read.data()),
 //@end
 }
